@@ -42,12 +42,16 @@ def big_value(draw):
 
 @st.composite
 def elementwise_cases(draw, op):
-    n = draw(st.integers(1, 8))
-    xs = [draw(big_value()) for _ in range(n)]
+    n = draw(st.sampled_from([1, 2, 3, 5, 8, 8, 64]))
+    if n <= 8:
+        xs = [draw(big_value()) for _ in range(n)]
+    else:
+        seedv = [draw(big_value()) for _ in range(8)]
+        xs = [seedv[(j * 5 + j // 8) % 8] * (1.0 if j % 3 else 0.5) for j in range(n)]
     c = {"op": op, "x": xs, "dtype": draw(st.sampled_from(["float32", "float64"])),
-         "g": [draw(st.integers(-8, 8)) / 4.0 for _ in range(n)], "form": draw(st.sampled_from(["fn", "module"]))}
+         "g": [draw(st.integers(-8, 8)) / 4.0 for _ in range(min(n, 8))] * (n // min(n, 8) + 1), "form": draw(st.sampled_from(["fn", "module"]))}
     if op == "bce_logits":
-        c["y"] = [draw(st.sampled_from([0.0, 1.0, 0.5, 0.25, 1.0, 0.0])) for _ in range(n)]
+        c["y"] = [draw(st.sampled_from([0.0, 1.0, 0.5, 0.25, 1.0, 0.0])) for _ in range(min(n, 8))] * (n // min(n, 8) + 1)
         c["reduction"] = draw(st.sampled_from(["none", "sum", "mean"]))
     return c
 
@@ -72,7 +76,7 @@ def check_elementwise(c, rec):
     dt = np.dtype(c["dtype"])
     x = np.array(c["x"], dtype=dt)
     x64 = x.astype(np.float64)
-    g = np.array(c["g"], dtype=dt)
+    g = np.array(c["g"][:len(c["x"])], dtype=dt)
     g64 = g.astype(np.float64)
     xmax = float(np.abs(x64).max())
     scale = max(1.0, xmax)
@@ -94,7 +98,7 @@ def check_elementwise(c, rec):
         want = SELU_SCALE * np.where(x64 > 0, x64, SELU_ALPHA * np.expm1(np.minimum(x64, 0)))
         wgrad = g64 * SELU_SCALE * np.where(x64 > 0, 1.0, SELU_ALPHA * np.exp(np.minimum(x64, 0)))
     elif op == "bce_logits":
-        y = np.array(c["y"], dtype=dt)
+        y = np.array(c["y"][:len(c["x"])], dtype=dt)
         y64 = y.astype(np.float64)
         if c["form"] == "module":
             out = nn.BCEWithLogitsLoss(reduction=c["reduction"])(t, Tensor(y))
@@ -125,15 +129,19 @@ def check_elementwise(c, rec):
 # ---- softmax family -----------------------------------------------------------------------------
 @st.composite
 def logit_cases(draw, op):
-    n = draw(st.integers(1, 4)); k = draw(st.integers(2, 6))
+    n = draw(st.integers(1, 4)); k = draw(st.sampled_from([2, 3, 4, 5, 6, 6, 40, 300]))
     rows = []
     for _ in range(n):
         base = draw(big_value())
         spread = draw(st.sampled_from([0.0, 1.0, 20.0, 30.0, 90.0, 110.0, 800.0, 2e4]))
-        row = [base + spread * draw(st.integers(-4, 4)) / 4.0 for _ in range(k)]
+        if k <= 6:
+            row = [base + spread * draw(st.integers(-4, 4)) / 4.0 for _ in range(k)]
+        else:
+            pat = [draw(st.integers(-4, 4)) / 4.0 for _ in range(7)]
+            row = [base + spread * pat[(j * j + 3 * j) % 7] for j in range(k)]
         rows.append([float(np.float32(max(-1e4, min(1e4, v)))) for v in row])
     c = {"op": op, "x": rows, "dtype": draw(st.sampled_from(["float32", "float64"])),
-         "g": [[draw(st.integers(-8, 8)) / 4.0 for _ in range(k)] for _ in range(n)],
+         "g": [[draw(st.integers(-8, 8)) / 4.0 for _ in range(min(k, 6))] * (k // min(k, 6) + 1) for _ in range(n)],
          "form": draw(st.sampled_from(["fn", "module"])), "transposed": draw(st.booleans())}
     if op == "cross_entropy":
         c["labels"] = [draw(st.integers(0, k - 1)) for _ in range(n)]
@@ -145,8 +153,8 @@ def check_logits(c, rec):
     dt = np.dtype(c["dtype"])
     x = np.array(c["x"], dtype=dt)
     x64 = x.astype(np.float64)
-    g64 = np.array(c["g"], dtype=np.float64)
     n, k = x.shape
+    g64 = np.array([row[:k] for row in c["g"]], dtype=np.float64)
     xmax = float(np.abs(x64).max())
     gap = float((x64.max(axis=1) - x64.min(axis=1)).max())
     scale = max(1.0, xmax)
